@@ -116,7 +116,8 @@ impl BitFont {
     }
 
     pub fn is_default(&self) -> bool {
-        self.name == DEFAULT_FONT_NAME
+        // the name alone does not make a font the built-in one: its glyphs may have been edited in place
+        self.name == DEFAULT_FONT_NAME && self.glyphs == BitFont::default().glyphs
     }
 
     pub fn convert_to_u8_data(&self) -> Vec<u8> {
